@@ -41,6 +41,7 @@ func runC18(a *A) {
 	a.Rule("locks/order", 1, func() { a.ruleLockOrder() })
 	a.Rule("locks/sink-under-lock", 1, func() { a.ruleSinkUnderLock() })
 	a.Rule("locks/blocking-under-lock", 1, func() { a.ruleBlockingUnderLock() })
+	a.Rule("golife/registered-goroutines-spawned", 1, func() { a.ruleRegisteredGoroutinesSpawned() })
 	a.Rule("golife/goroutines", 14, func() {
 		a.ruleGoroutines(map[string]string{
 			"(*stream.DataProcessor).startWindowProcessing$1": "(*stream.Stream).Start",
